@@ -1,24 +1,27 @@
 #!/usr/bin/env python3
 """seeded_table.py : print the markdown table of /verif/seeded (one row per seeded change:
-what it breaks, what it needs in order to show, which checks report it)."""
+where it is, what it needs in order to show, which checks report it)."""
 import glob, json, os, re
 
+def clip(s, n):
+    s = (s or "").replace("\n", " ").replace("|", "/").strip()
+    return s if len(s) <= n else s[: n - 3] + "..."
+
+def order(path):
+    cid, m = path.split("/")[-3], path.split("/")[-2]
+    rnd = {"m": 1, "r2": 2, "r3": 3}[re.match(r"(r2|r3|m)", m).group(1)]
+    return (cid, rnd, m)
+
 rows = []
-for mf in sorted(glob.glob("/verif/seeded/C*/*/meta.json")):
+for mf in sorted(glob.glob("/verif/seeded/C*/*/meta.json"), key=order):
     d = json.load(open(mf))
     cid, m = mf.split("/")[-3], mf.split("/")[-2]
-    summ = (d.get("summary") or "").replace("\n", " ").replace("|", "/")
-    summ = re.split(r"(?<=[.;:]) ", summ)[0]
-    if len(summ) > 230:
-        summ = summ[:227] + "..."
-    needs = (d.get("needs_to_manifest") or "").replace("\n", " ").replace("|", "/")
-    if len(needs) > 200:
-        needs = needs[:197] + "..."
     runs = d.get("checks_run_against_it", [])
     caught = ", ".join(d.get("caught_by", [])) or "—"
-    missed = ", ".join(r["check"] for r in runs if "caught" in r and not r["caught"])
-    files = ", ".join(os.path.basename(f) for f in (d.get("files_changed") or []))
-    rows.append("| %s/%s | %s | %s | %s | %s | %s |" % (cid, m, files, summ, needs, caught, missed or "—"))
-print("| change | file(s) | what it does | needs | reported by | run against it, silent |")
-print("|---|---|---|---|---|---|")
+    silent = ", ".join(r["check"] for r in runs if "caught" in r and not r["caught"])
+    files = ", ".join(sorted({os.path.basename(f) for f in (d.get("files_changed") or [])}))
+    summ = re.split(r"(?<=[.;:]) ", clip(d.get("summary"), 400))[0]
+    rows.append("| %s/%s | %s | %s | %s | %s |" % (cid, m, clip(files, 60), clip(summ, 170), clip(d.get("needs_to_manifest"), 150), caught + ((" (silent: " + silent + ")") if silent else "")))
+print("| change | file(s) | what it does | what it needs to show | reported by |")
+print("|---|---|---|---|---|")
 print("\n".join(rows))
